@@ -15,7 +15,7 @@ static const int kArgs[6] = {3, 1, 3, 4, 1, 5};
 static bool acceptable_usable(int ctor, int arg, int kind) { return ctor == 4 && kind == 1; }
 // input_nonfinite: v = case, kind   -- a non-finite number inside a polygon / produced by a warp callback
 //   case 0 Extrude polygon x, 1 Extrude polygon y, 2 Revolve polygon x, 3 Revolve polygon y, 4 Warp x, 5 Warp y, 6 Warp z,
-//   7 Translate + union, 8 Scale + union, 9 Rotate + union, 10 Hull point x, 11 Hull point z
+//   7 Translate + union, 8 Scale + union, 9 Rotate + union, 10 Hull point x, 11 Hull point z, 12 Warp of an object with properties
 static std::string input_nonfinite(int c, int kind) {
   const double b = bad(kind);
   Polygons a = {{{0, 0}, {1, 0}, {1, 1}, {0, 1}}};
@@ -31,6 +31,8 @@ static std::string input_nonfinite(int c, int kind) {
     case 7: m = Manifold::Cube().Translate({b, 0, 0}) + Manifold::Cube().Translate({5, 0, 0}); break;
     case 8: m = Manifold::Cube().Translate({5, 0, 0}) + Manifold::Cube().Scale({1, b, 1}); break;
     case 9: m = Manifold::Cube().Rotate(b, 0, 0) + Manifold::Cube().Translate({5, 0, 0}); break;
+    // an object with a property matrix that is emptied by an error (finding 13: MakeEmpty kept the properties)
+    case 12: m = Manifold::Cube().SetProperties(2, [](double* p, vec3 v, const double*) { p[0] = v.x; p[1] = v.y; }).Warp([b](vec3& v) { if (v.x > 0.5) v.x = b; }); break;
     // a non-finite point in a point set
     default: { std::vector<vec3> p = {{0, 0, 0}, {1, 0, 0}, {0, 1, 0}, {0, 0, 1}, {1, 1, 1}}; p[4][c == 10 ? 0 : 2] = b; m = Manifold::Hull(p); }
   }
@@ -43,7 +45,9 @@ static std::string input_nonfinite(int c, int kind) {
   // clipped away like any x < 0 vertex; the finite, index-valid solid that remains is a usable result
   if (c == 2 && st == Manifold::Error::NoError && !m.IsEmpty()) return "";
   if (st == Manifold::Error::NoError) return std::string("non-finite input gave Status NoError (") + (m.IsEmpty() ? "empty-but-valid)" : "non-empty)");
-  return m.IsEmpty() ? "" : "error status but not empty";
+  if (!m.IsEmpty()) return "error status but not empty";
+  if (m.NumVert() || m.NumTri() || m.NumEdge() || m.NumProp() || m.NumPropVert()) return "error status, IsEmpty(), but NumProp " + std::to_string(m.NumProp()) + " / NumPropVert " + std::to_string(m.NumPropVert()) + " left over";
+  return "";
 }
 // degenerate_polygon: v = case, number of vertices (0..2) of a contour that bounds no area
 //   case 0 Extrude {contour, square}, 1 Extrude {contour}, 2 Revolve {contour}, 3 Revolve {contour, square}
@@ -178,7 +182,7 @@ int main(int argc, char** argv) {
       ++runs;
       if (!s.empty()) { report_fail("degenerate_polygon", in, s); ++badn; }
     }
-  for (int c = 0; c < 12; ++c)
+  for (int c = 0; c < 13; ++c)
     for (int k = 0; k < 3; ++k) {
       std::vector<long long> in = {c, k};
       report_current("input_nonfinite", in);
